@@ -61,15 +61,35 @@ class _FakeTimeModule(types.ModuleType):
         self.perf_counter = _time
 
 
+def _untraced():
+    try:
+        from crosshair.tracers import NoTracing, is_tracing
+
+        if is_tracing():
+            return NoTracing()
+    except ImportError:
+        pass
+    import contextlib
+
+    return contextlib.nullcontext()
+
+
 class FakeDateTime(_dt.datetime):
+    """datetime whose now() is the harness clock; values are real C datetime objects built outside
+    the symbolic tracer (CrossHair would otherwise substitute its own datetime model)."""
+
     @classmethod
     def now(cls, tz=None):
-        base = _dt.datetime.fromtimestamp(0, tz=_dt.timezone.utc) + _dt.timedelta(
-            seconds=Clock.now
-        )
-        if tz is None:
-            return base.replace(tzinfo=None)
-        return base.astimezone(tz)
+        with _untraced():
+            base = _dt.datetime.fromtimestamp(0, tz=_dt.timezone.utc) + _dt.timedelta(seconds=float(Clock.now))
+            if tz is None:
+                return base.replace(tzinfo=None)
+            return base.astimezone(tz)
+
+
+def real_timedelta(*a, **k):
+    with _untraced():
+        return _dt.timedelta(*a, **k)
 
 
 def advance(seconds: float):
@@ -92,6 +112,8 @@ def install_clock():
             d["time"] = _time
         if d.get("datetime") is _dt.datetime:
             d["datetime"] = FakeDateTime
+        if d.get("timedelta") is _dt.timedelta:
+            d["timedelta"] = real_timedelta
     USED.append("clock: time.time/monotonic/perf_counter and datetime.now inside nemoguardrails modules -> harness-controlled non-decreasing instant")
 
 
